@@ -1228,6 +1228,38 @@ pub fn c08(tier: Tier) -> i32 {
     ] {
         items3.push(l1_item(format!("param-extra:{}", t), &toks_of(t)));
     }
+    // sequences of members: what one function leaves behind must not reach the next one (a constructor, a declaration
+    // without body, a function that writes its parameter, each followed or preceded by every other form), in one contract,
+    // split over two contracts, and followed by a free function
+    {
+        let members = [
+            "constructor ( bytes memory p ) { }",
+            "constructor ( bytes memory p , string memory s ) { s = s ; }",
+            "function decl ( bytes memory d ) external ;",
+            "function w ( bytes memory a ) external { a = a ; }",
+            "function r ( bytes memory b ) external { }",
+            "function none ( ) external { }",
+            "function cd ( bytes calldata c ) external { }",
+            "function priv ( bytes memory e ) private { }",
+            "modifier mm ( bytes memory m ) { _ ; }",
+            "fallback ( bytes calldata i ) external returns ( bytes memory o ) { }",
+            "function idx ( uint256 [ ] memory x ) public { x [ 0 ] = 1 ; }",
+            "function same ( bytes memory p ) external { }",
+            "function wsame ( bytes memory p ) external { p = p ; }",
+        ];
+        for (i, a) in members.iter().enumerate() {
+            for (j, b) in members.iter().enumerate() {
+                if i == j || (a.starts_with("constructor") && b.starts_with("constructor")) {
+                    continue;
+                }
+                items3.push(l1_item(format!("seq:one:{}:{}", i, j), &toks_of(&format!("pragma solidity 0.8.19 ; contract C {{ {} {} }}", a, b))));
+                items3.push(l1_item(format!("seq:two:{}:{}", i, j), &toks_of(&format!("pragma solidity 0.8.19 ; abstract contract C {{ {} }} contract D {{ {} }}", a, b))));
+                if !b.starts_with("constructor") && !b.starts_with("modifier") && !b.starts_with("fallback") {
+                    items3.push(l1_item(format!("seq:free:{}:{}", i, j), &toks_of(&format!("pragma solidity 0.8.19 ; contract C {{ {} }} {}", a, b.replace("external", "").replace("public", "").replace("private", "")))));
+                }
+            }
+        }
+    }
     // names x language version: a function may carry the name of any contract-like definition of the file (only the
     // name of its OWN contract makes it an old-style constructor, and only that case is gray), under every
     // pragma spelling incl. none
